@@ -6,8 +6,13 @@
    list record's operations are proved to implement the interface on
    well-formed inputs (ListOpsCorrect.v), and the step preserves
    well-formedness.  Only rounding separates the executed model from the
-   theorems.  (Steps that invert a matrix additionally rely on the Gauss-Jordan
-   routine, which is validated at run time, not proved.) *)
+   theorems.  Here: the representation relation (repr, repr_gmix: entries,
+   weights AND descriptors), LinearStateModel::propagate with all its branches
+   for an arbitrary exogenous function that respects the representation, and
+   the whole step with the three skip flags.  C02_TransportEntry.v instantiates
+   this at the extracted entry points (affine exogenous model, sequences, spec).
+   The basic lemmas (repr, repr_mul, repr_add, repr_tr) are shared with the
+   transports of C01, C03, C04. *)
 Require Import ZArith List Bool.
 Require Import BFL.Ops BFL.ListOps BFL.C02_Model.
 From mathcomp Require Import all_ssreflect all_algebra.
@@ -52,7 +57,8 @@ Definition repr_covs n (ls : list (lmxF F)) (As : list 'M[F]_n) : Prop :=
 Definition repr_gmix n k (gl : gmix OL n k) (gm : gmix OM n k) : Prop :=
   repr n k (gm_means gl) (gm_means gm : 'M[F]_(n,k)) /\
   repr_covs (gm_covs gl) (gm_covs gm) /\
-  gm_weights gl = gm_weights gm.
+  gm_weights gl = gm_weights gm /\
+  gm_layout gl = gm_layout gm.
 
 Definition repr_exo n k (ul : option (lmxF F -> lmxF F)) (um : option ('M[F]_(n,k) -> 'M[F]_(n,k))) : Prop :=
   match ul, um with
@@ -91,6 +97,20 @@ Lemma repr_covs_app n l1 (A1 : list 'M[F]_n) l2 A2 :
   repr_covs l1 A1 -> repr_covs l2 A2 -> repr_covs (l1 ++ l2) (A1 ++ A2).
 Proof. by move=> r1 r2; apply: List.Forall2_app. Qed.
 
+(* LinearStateModel::propagate, all branches (the last one keeps the content of the output) *)
+Theorem lin_propagate_transport n k lF (Fm : 'M[F]_n) ul um ss se lcur (cur : 'M[F]_(n,k)) lold (old : 'M[F]_(n,k)) :
+  repr n n lF Fm -> repr_exo ul um -> repr n k lcur cur -> repr n k lold old ->
+  repr n k (@lin_propagate OL n k lF ul ss se lcur lold) (@lin_propagate OM n k Fm um ss se cur old).
+Proof.
+move=> rF rU rC rO; rewrite /lin_propagate.
+case: ul um rU => [fl|] [fm|] //= rU.
+- case: ss; case: se => //=.
+  + exact: rU.
+  + exact: repr_mul.
+  + by apply: repr_add; [exact: repr_mul | exact: rU].
+- by case: ss => //=; exact: repr_mul.
+Qed.
+
 (* the whole prediction step commutes with the representation *)
 Theorem kf_predict_transport n k lF (Fm : 'M[F]_n) lQ (Q : 'M[F]_n) ul um
         (prevl oldl : gmix OL n k) (prevm oldm : gmix OM n k) sp ss se :
@@ -102,13 +122,9 @@ Proof.
 move=> rF rQ rU rP rO.
 rewrite /gaussian_predict; case: sp => //=.
 rewrite /kf_predict_step; case: ss => //=.
-case: rP => rPm [rPc rPw]; case: rO => rOm [rOc rOw].
+case: rP => rPm [rPc [rPw rPl]]; case: rO => rOm [rOc [rOw rOl]].
 split; last split => //.
-- rewrite /lin_propagate.
-  case: ul um rU => [fl|] [fm|] //= rU.
-  + case: se => /=; first exact: repr_mul.
-    by apply: repr_add; [exact: repr_mul | exact: rU].
-  + exact: repr_mul.
+- exact: (@lin_propagate_transport n k lF Fm ul um false se).
 - rewrite /overwrite_prefix !List.map_length (repr_covs_length rPc).
   apply: repr_covs_app; first exact: repr_covs_map.
   exact: repr_covs_skipn.
